@@ -217,12 +217,14 @@ func (e *L2) FundModule(module string, coins ...sdk.Coin) {
 }
 
 // Deliver runs one message as one transaction.
-func (e *L2) Deliver(msg sdk.Msg) Result { return deliver(e.Ctx, e.Router, msg) }
+func (e *L2) Deliver(msg sdk.Msg) Result {
+	return deliver(e.Ctx, e.Router, WireCopy(e.Enc.Marshaler, msg))
+}
 
 // DeliverWithGas runs one message under a fresh finite gas meter.
 func (e *L2) DeliverWithGas(msg sdk.Msg, limit uint64) Result {
 	ctx := e.Ctx.WithGasMeter(storetypes.NewGasMeter(limit))
-	return deliver(ctx, e.Router, msg)
+	return deliver(ctx, e.Router, WireCopy(e.Enc.Marshaler, msg))
 }
 
 // HandleInPlace runs the handler of msg directly on e.Ctx (no branch of its own) under a gas
